@@ -28,6 +28,7 @@ func init() {
 }
 
 func runC54(c *eng.Ctx) {
+	defer runC54Alias(c)
 	p := c.P
 	// ---- R1 Commit / Rollback protocol (v1 and v2 siblings) ----
 	for _, s := range []struct{ typ, iface string }{{"fanoutAppender", "Appender"}, {"fanoutAppenderV2", "AppenderV2"}} {
